@@ -39,6 +39,8 @@ func (f vrFault) err(what string) error {
 type vrDriver struct {
 	edit, commit, discard vrFault
 	trace                 []string
+	cancelAt              string // "", "edit", "commit": the request context is cancelled while that RPC is in flight
+	cancel                context.CancelFunc
 }
 
 func (d *vrDriver) Get(string) (*types.NetconfResponse, error)               { return nil, nil }
@@ -49,12 +51,21 @@ func (d *vrDriver) Validate(string) (*types.NetconfResponse, error)          { r
 func (d *vrDriver) IsAlive() bool                                            { return true }
 func (d *vrDriver) EditConfig(target, cfg string) (*types.NetconfResponse, error) {
 	d.trace = append(d.trace, "EditConfig("+target+")")
+	if d.cancelAt == "edit" && d.cancel != nil {
+		d.cancel()
+	}
 	if e := d.edit.err("edit-config"); e != nil {
 		return nil, e
 	}
 	return types.NewNetconfResponse(etree.NewDocument()), nil
 }
-func (d *vrDriver) Commit() error  { d.trace = append(d.trace, "Commit"); return d.commit.err("commit") }
+func (d *vrDriver) Commit() error {
+	d.trace = append(d.trace, "Commit")
+	if d.cancelAt == "commit" && d.cancel != nil {
+		d.cancel()
+	}
+	return d.commit.err("commit")
+}
 func (d *vrDriver) Discard() error { d.trace = append(d.trace, "Discard"); return d.discard.err("discard") }
 func (d *vrDriver) Close() error   { d.trace = append(d.trace, "DriverClose"); return nil }
 
@@ -147,45 +158,42 @@ func vrCheck(fn, ds string, tr []string, err error, src *vrSource, fail func(cla
 func TestVerifReplayNcSet(t *testing.T) {
 	faults := []vrFault{vrOK, vrErr, vrEOF}
 	counts := map[string]int{}
+	inner := map[string]string{"candidate": "(*datastore/target.ncTarget).setCandidate", "running": "(*datastore/target.ncTarget).setRunning"}
 	for _, ds := range []string{"candidate", "running", "bogus"} {
-		for _, viaSet := range []bool{false, true} {
+		for _, cancelAt := range []string{"", "edit", "commit"} {
 			for _, xmlErr := range []bool{false, true} {
 				for _, empty := range []bool{false, true} {
 					for _, fe := range faults {
 						for _, fc := range faults {
 							for _, fd := range faults {
-								d := &vrDriver{edit: fe, commit: fc, discard: fd}
+								ctx, cancel := context.WithCancel(context.Background())
+								d := &vrDriver{edit: fe, commit: fc, discard: fd, cancelAt: cancelAt, cancel: cancel}
 								src := &vrSource{xmlErr: xmlErr, empty: empty}
 								nt := &ncTarget{name: "replay", m: new(sync.Mutex), driver: d, sbiConfig: &config.SBI{NetconfOptions: &config.SBINetconfOptions{CommitDatastore: ds}}}
-								fn := ""
+								fns := []string{"(*datastore/target.ncTarget).Set"}
+								if in, ok := inner[ds]; ok {
+									fns = append(fns, in)
+								}
 								var err error
 								func() {
 									defer func() {
 										if r := recover(); r != nil {
-											fmt.Printf("REPLAY-FAIL fn=%s clause=panic input=ds=%s xmlErr=%v empty=%v edit=%d commit=%d discard=%d panic=%v\n", fn, ds, xmlErr, empty, fe, fc, fd, r)
+											for _, fn := range fns {
+												fmt.Printf("REPLAY-FAIL fn=%s clause=panic input=ds=%s cancelAt=%q xmlErr=%v empty=%v edit=%d commit=%d discard=%d panic=%v\n", fn, ds, cancelAt, xmlErr, empty, fe, fc, fd, r)
+											}
 										}
 									}()
-									switch {
-									case viaSet:
-										fn = "(*datastore/target.ncTarget).Set"
-										_, err = nt.Set(context.Background(), src)
-									case ds == "candidate":
-										fn = "(*datastore/target.ncTarget).setCandidate"
-										_, err = nt.setCandidate(src)
-									case ds == "running":
-										fn = "(*datastore/target.ncTarget).setRunning"
-										_, err = nt.setRunning(src)
-									default:
-										return
-									}
+									_, err = nt.Set(ctx, src)
 								}()
-								if fn == "" {
-									continue
+								cancel()
+								for _, fn := range fns {
+									counts[fn]++
 								}
-								counts[fn]++
-								input := fmt.Sprintf("input=ds=%s xmlErr=%v emptyDoc=%v edit=%d commit=%d discard=%d (0 ok,1 error,2 EOF error) err=%v trace=%v", ds, xmlErr, empty, fe, fc, fd, err, d.trace)
+								input := fmt.Sprintf("input=ds=%s ctxCancelledDuring=%q xmlErr=%v emptyDoc=%v edit=%d commit=%d discard=%d (0 ok,1 error,2 EOF error) err=%v trace=%v", ds, cancelAt, xmlErr, empty, fe, fc, fd, err, d.trace)
 								fail := func(clause, why string) {
-									fmt.Printf("REPLAY-FAIL fn=%s clause=%s %s why=%s\n", fn, clause, input, why)
+									for _, fn := range fns {
+										fmt.Printf("REPLAY-FAIL fn=%s clause=%s %s why=%s\n", fn, clause, input, why)
+									}
 								}
 								if ds == "bogus" {
 									if err == nil || len(d.trace) != 0 {
@@ -193,22 +201,20 @@ func TestVerifReplayNcSet(t *testing.T) {
 									}
 									continue
 								}
-								vrCheck(fn, ds, d.trace, err, src, fail)
-								if viaSet {
-									// Set's own clause names
-									if ds == "candidate" && err == nil && len(d.trace) > 0 && !(len(d.trace) == 2 && d.trace[1] == "Commit") {
-										fail("success_candidate", "trace "+strings.Join(d.trace, ","))
-									}
-									if ds == "running" && err == nil && len(d.trace) > 1 {
-										fail("success_running", "trace "+strings.Join(d.trace, ","))
-									}
-									if len(d.trace) > 0 && d.trace[0] != "EditConfig("+ds+")" {
-										fail("edits_target_configured_datastore", d.trace[0])
-									}
-									for i, e := range d.trace {
-										if e == "Commit" && !(ds == "candidate" && i == 1) {
-											fail("commit_only_for_candidate", "commit at "+fmt.Sprint(i))
-										}
+								vrCheck(fns[0], ds, d.trace, err, src, fail)
+								// Set's own clause names
+								if ds == "candidate" && err == nil && len(d.trace) > 0 && !(len(d.trace) == 2 && d.trace[1] == "Commit") {
+									fail("success_candidate", "trace "+strings.Join(d.trace, ","))
+								}
+								if ds == "running" && err == nil && len(d.trace) > 1 {
+									fail("success_running", "trace "+strings.Join(d.trace, ","))
+								}
+								if len(d.trace) > 0 && d.trace[0] != "EditConfig("+ds+")" {
+									fail("edits_target_configured_datastore", d.trace[0])
+								}
+								for i, e := range d.trace {
+									if e == "Commit" && !(ds == "candidate" && i == 1) {
+										fail("commit_only_for_candidate", "commit at "+fmt.Sprint(i))
 									}
 								}
 							}
